@@ -113,6 +113,39 @@ def coherent(h, kind='proj.Polygon', n=2, shape=(), ops=('copy',)):
     h.eq("composite shape consistent", np.array(obj.aux_data.shape[:len(obj.shape)]), np.array(obj.shape))
 
 
+def ideal_queries(h, n=2, query='hyperboloid'):
+    """queries on ideal points / boundary objects (exactly lightlike representatives) do not move or destroy them"""
+    t = h.var('t')
+    lam = h.var('lam')
+    h.assume(lam != 0, 'scale != 0')
+    c, s = (1 - t * t) / (1 + t * t), 2 * t / (1 + t * t)
+    v = np.array([lam, lam * c, lam * s] + [0 * lam] * (n - 2), dtype=object if h.is_sym() else float)
+    y = _interior(h, 'y', (), n)
+    p = hyperbolic.IdealPoint(v.copy())
+    q = hyperbolic.Point(y, model="klein")
+    before = p.proj_data.copy()
+    if query == 'hyperboloid':
+        p.coords('hyperboloid')
+        p.hyperboloid_coords()
+    elif query == 'klein':
+        p.coords('klein')
+        p.coords('poincare')
+    elif query == 'segment':
+        sgm = hyperbolic.Segment(q, p)
+        sb, ab = sgm.proj_data.copy(), sgm.aux_data.copy()
+        sgm.get_endpoints().coords('hyperboloid')
+        hyperbolic.Point(sgm.aux_data).coords('hyperboloid')
+        h.proj_eq("segment endpoints unchanged", sgm.proj_data, sb)
+        h.proj_eq("segment ideal endpoints unchanged", sgm.aux_data, ab)
+    elif query == 'geodesic':
+        g = hyperbolic.Geodesic(hyperbolic.IdealPoint(v.copy()), hyperbolic.IdealPoint(np.array([1, -1] + [0] * (n - 1), dtype=v.dtype)))
+        gb = g.proj_data.copy()
+        g.get_endpoints().coords('hyperboloid')
+        g.ideal_basis_coords('klein')
+        h.proj_eq("geodesic endpoints unchanged", g.proj_data, gb)
+    h.proj_eq("ideal point unchanged (projectively, still non-zero)", p.proj_data, before)
+
+
 def queries(h, kind='hyp.Point', n=2, query='coords:poincare'):
     """read-only queries leave the represented point(s) and the caller's arrays unchanged"""
     x = _interior(h, 'x', (), n)
